@@ -61,17 +61,19 @@ CAN = call('game::Game::can_declare_draw', ('param', 1))
 
 
 def paths_joint(ret, fin):
-    """(conds, ret leaf, log leaf) for every path of the return tree; the log tree is evaluated along the same conditions"""
+    """(conds, ret leaf, [log leaf]) for every consistent joint path of the return value and the action log.
+    A return value that is itself a condition (`let ok = ..; if ok { push } ok`) is split into its two outcomes, so the
+    same condition decides the log."""
+    def boolify(e):
+        if isinstance(e, tuple) and e and e[0] == 'ite':
+            return ('ite', e[1], tuple((v, boolify(x)) for v, x in e[2]))
+        if isinstance(e, tuple) and e and e[0] in ('int', 'never'):
+            return e
+        return ('ite', e, ((0, ('int', 0, 'bool')), ('otherwise', ('int', 1, 'bool'))))
     out = []
-    for conds, leaf in paths_of(ret):
-        cmap = {}
-        for c, v, allv in conds:
-            cmap[c] = v
-
-        def decide(c, vals):
-            return cmap.get(c)
-        leaves = eval_tree(fin, decide)
-        out.append((conds, leaf, leaves))
+    for conds, leaf in paths_deep(('tuple', (boolify(ret), fin)), limit=20000):
+        r_, lg = leaf[1]
+        out.append((conds, r_, [lg]))
     return out
 
 
@@ -146,8 +148,8 @@ def r12(ctx):
         body = s.body
         bad = 0
         trues = 0
-        for st in s.stores:
-            if st.get('local') and st['target'] == ('ref', ('l', 0), ()) and norm(st['value']) == ('int', 1, 'bool'):
+        for st in return_sites(s):
+            if norm(st['value']) != ('int', 0, 'bool'):       # `return true` or a boolean tail expression that may be true
                 trues += 1
                 gs = guards(s, st['blk'])
                 if not any(game_open(g['cond'], g['vals']) for g in gs):
@@ -208,18 +210,32 @@ def r3(ctx):
                     lits.add(key)
     derived = {it for imp in f.impls if imp.get('derived') for it in imp['items']}
     lits = {k for k in lits if k not in derived}
-    ok_lits = {'game::Game::new', 'game::Game::new_with_board'}
-    if lits <= ok_lits and lits:
-        ctx.ok(R, 'Game literals only in %s' % sorted(lits), '')
-        for k in lits:
-            s = ctx.an().summary(k)
-            m = match(('agg', G, 'Game', (('start_pos', V('p')), ('moves', V('m')))), norm(s.ret))
-            if m is None or norm(m['m']) != call('alloc::vec::Vec::<T>::new') and match(call('alloc::vec::Vec::<T>::new'), m['m']) is None:
-                ctx.violation(R, k + ':log', 'constructor does not start with an empty log: ' + sh(s.ret, 200), where(s.body))
-            else:
-                ctx.ok(R, '%s starts with an empty log' % k, where(s.body))
+    # a constructor = a function that builds a Game without being handed one; every Game it builds starts with an empty log
+    def takes_game(k):
+        fn_ = f.fns.get(k) or {}
+        return any('game::Game' in str(t) for t in fn_.get('inputs', []))
+    non_ctor = sorted(k for k in lits if takes_game(k))
+    if non_ctor:
+        ctx.violation(R, 'literals:' + ','.join(non_ctor), 'a Game value is built from parts by a function that already holds a Game (not a constructor): %s' % non_ctor, '')
+    elif not lits:
+        ctx.inconclusive(R, 'no Game literal found')
     else:
-        ctx.violation(R, 'literals:' + ','.join(sorted(lits - ok_lits)), 'Game constructed outside the constructors: %s' % sorted(lits - ok_lits), '')
+        ctx.ok(R, 'Game literals only in constructors %s' % sorted(lits), '')
+    for k in sorted(lits - set(non_ctor)):
+        s = ctx.an().summary(k)
+        aggs = [x for x in walk(norm(s.ret)) if isinstance(x, tuple) and x and x[0] == 'agg' and x[1] == G]
+        bad_log = False
+        for x in aggs:
+            d = dict(x[3])
+            mv = d.get('moves')
+            if mv is None or match(call('alloc::vec::Vec::<T>::new'), mv) is None:
+                bad_log = True
+        if not aggs:
+            ctx.inconclusive(R, '%s: the Game it builds does not reach its return value in a recognised form' % k)
+        elif bad_log:
+            ctx.violation(R, k + ':log', 'constructor does not start with an empty log: ' + sh(s.ret, 200), where(s.body))
+        else:
+            ctx.ok(R, '%s starts with an empty log' % k, where(s.body))
     fn = f.fns.get('game::Game::actions')
     if fn is None:
         ctx.inconclusive(R, 'Game::actions not found')
@@ -465,35 +481,61 @@ def r7(ctx):
     STM = call('game::Game::side_to_move', ('param', 1))
     W, B = ENUM('color::Color', 'White'), ENUM('color::Color', 'Black')
     n = 0
+    OFFER_D = ctx.facts().enum_discr(ACT, 'OfferDraw')
+    lastW, lastB = eqa(at(1), offer(W)), eqa(at(1), offer(B))
+    prevO = eqa(at(2), offer(call('<color::Color as core::ops::bit::Not>::not', STM)))
+    prevO2 = eqa(at(2), offer(('cnot', STM)))
+
+    def mk_decide(nlen, last, prev_is_offer, unknown):
+        def decide(cnd, vals):
+            cn = norm(cnd)
+            if game_open(cn, [0]) or game_open(cn, ['otherwise']):
+                # the guard on result(): the game is open on the paths of interest
+                return 0 if match(RESULT_SOME, cn) is not None or match(('discr', RESULT), cn) is not None else 'otherwise'
+            if cn[0] == 'bin' and cn[1] in ('Gt', 'Ge', 'Lt', 'Le', 'Eq', 'Ne') and cn[3][0] == 'int' and match(LEN, cn[2]) is not None:
+                k = cn[3][1]
+                tv = {'Gt': nlen > k, 'Ge': nlen >= k, 'Lt': nlen < k, 'Le': nlen <= k, 'Eq': nlen == k, 'Ne': nlen != k}[cn[1]]
+                return as_bool(tv, vals)
+            if match(call('alloc::vec::Vec::<T, A>::is_empty', MOVES), cn) is not None:
+                return as_bool(nlen == 0, vals)
+            if match(lastW, cn) is not None:
+                return as_bool(last == 'W', vals)
+            if match(lastB, cn) is not None:
+                return as_bool(last == 'B', vals)
+            if cn[0] == 'discr' and match(at(1), cn[1]) is not None:
+                return OFFER_D if last in ('W', 'B') else [v for v in vals if v != OFFER_D]
+            if match(prevO, cn) is not None or match(prevO2, bb(cn, ctx.an())) is not None or match(prevO2, cn) is not None:
+                return as_bool(prev_is_offer, vals)
+            if cn[0] == 'call' and cn[1] == '<game::Action as core::cmp::PartialEq>::eq' and \
+                    any(match(at(k), a_) is not None for k in (1, 2, 3) for a_ in cn[2]):
+                return None      # some other comparison of a logged action: says nothing about a pending offer
+            unknown.append(cn)
+            return None
+        return decide
     for c in s.calls:
         if c['callee'] != PUSH:
             continue
         n += 1
-        lastW, lastB = eqa(at(1), offer(W)), eqa(at(1), offer(B))
-        prevO = eqa(at(2), offer(('cnot', STM)))
         disj = dnf(s, c['blk'])
-        kinds = []
-        for conj in disj:
-            gs = [(bb(g['cond'], ctx.an()), g['truth']) for g in conj if g['cond'] is not None]
-            if any(t is True and (match(lastW, cond) is not None or match(lastB, cond) is not None) for cond, t in gs):
-                kinds.append('last')
-            elif any(t is True and match(prevO, cond) is not None for cond, t in gs):
-                kinds.append('prev')
-            else:
-                kinds.append('none')
-        gs = [(bb(g['cond'], ctx.an()), g['truth']) for conj in disj for g in conj if g['cond'] is not None]
-        last_offer = bool(kinds) and all(k == 'last' for k in kinds)
-        prev_offer = bool(kinds) and all(k in ('prev', 'last') for k in kinds) and not last_offer
-        if last_offer:
-            ctx.ok(R, 'AcceptDraw push: the latest action is a draw offer', where(s.body, c['line']))
-        elif prev_offer:
-            # the latest action must not itself be an offer-less non-move: by R4 it is a move or an offer
-            not_last_offer = sum(1 for cond, t in gs if t is False and cond in (bb(eqa(at(1), offer(W))), bb(eqa(at(1), offer(B)))))
-            ctx.ok(R, 'AcceptDraw push: the action before the latest is an offer by the side not to move '
-                      '(latest is then a move: result() is None excludes Resign/Accept/Declare)', where(s.body, c['line']))
+        unknown = []
+        bad = None
+        for nlen in (0, 1, 2, 3):
+            for last in ('W', 'B', 'other'):
+                for prev in (True, False):
+                    pending = (nlen >= 1 and last in ('W', 'B')) or (nlen >= 2 and prev)
+                    if pending:
+                        continue
+                    if any(conj_possible(conj, mk_decide(nlen, last, prev, unknown)) for conj in disj):
+                        bad = bad or (nlen, last, prev)
+        if unknown:
+            ctx.inconclusive(R, 'accept_draw: the AcceptDraw push depends on a condition that is not understood: ' + sh(unknown[0], 160))
+        elif bad:
+            ctx.violation(R, '%s:push@%s' % (key, 'offer-test-missing'), 'an AcceptDraw push is reachable without a pending offer: log length %d, latest action %s, '
+                          'action before it %s' % (bad[0], {'W': 'an offer', 'B': 'an offer', 'other': 'not an offer'}[bad[1]],
+                                                   'an offer by the side not to move' if bad[2] else 'not such an offer'), where(s.body, c['line']))
         else:
-            ctx.violation(R, '%s:push@%s' % (key, 'offer-test-missing'), 'an AcceptDraw push is not guarded by a pending-offer test; guards: %s' % (
-                [(sh(cnd, 120), t) for cnd, t in gs]), where(s.body, c['line']))
+            ctx.ok(R, 'AcceptDraw push only if the latest action is a draw offer, or the action before the latest is an offer by the side not to '
+                      'move (latest is then a move: result() is None excludes Resign/Accept/Declare)', where(s.body, c['line']))
     ctx.floor(R, 'AcceptDraw push sites', n, 1)
 
 
